@@ -21,6 +21,7 @@ be unique.
 import itertools
 import math
 import operator
+import traceback
 
 import numpy as np
 
@@ -976,18 +977,24 @@ def _validate_check(cs, b, tag):
 
 def _run_program(cs, p):
     tag = _key(p)
-    b = _build(p)
-    cs.ck.trans += 1
-    rep = list(range(len(b.priors)))
-    n2b = _match_by_signature(b)
-    if n2b is None:
-        n2b = _match_by_reach(b, cs.ck)
-    fp = _check_state(cs, b, rep, n2b, tag)
-    if fp is not None:
-        _sharing_check(cs, b, rep, tag)
-        _purity_check(cs, b, list(n2b), tag)
-        _validate_check(cs, b, tag)
-    return fp
+    try:
+        b = _build(p)
+        cs.ck.trans += 1
+        rep = list(range(len(b.priors)))
+        n2b = _match_by_signature(b)
+        if n2b is None:
+            n2b = _match_by_reach(b, cs.ck)
+        fp = _check_state(cs, b, rep, n2b, tag)
+        if fp is not None:
+            _sharing_check(cs, b, rep, tag)
+            _purity_check(cs, b, list(n2b), tag)
+            _validate_check(cs, b, tag)
+        return fp
+    except Exception as e:                     # noqa
+        # every program is a valid description: nothing here may raise
+        cs.bad("api-exception", "%s: %s: %s" % (tag, type(e).__name__, e),
+               tb=traceback.format_exc()[-1500:])
+        return "exception:" + type(e).__name__
 
 
 def _run_model(case, cs):
@@ -1131,11 +1138,17 @@ def _tie_step(cs, b, ref, S, new_name, tag):
     -> False if the implementation's answer is not an allowed one"""
     m = b.model
     before = list(m._parameter_names)
-    if new_name is None:
-        m.add_tie(list(S))
-    else:
-        m.add_tie(list(S), new_name=new_name)
     cs.ck.trans += 1
+    try:
+        if new_name is None:
+            m.add_tie(list(S))
+        else:
+            m.add_tie(list(S), new_name=new_name)
+    except Exception as e:                     # noqa
+        cs.bad("tie-equal-accepted", "%s: add_tie(%r, new_name=%r) of equal "
+               "parameters raised %s: %s" % (tag, list(S), new_name,
+                                             type(e).__name__, e))
+        return False
     after = list(m._parameter_names)
     gone = set(S)
     kept = [n for n in before if n not in gone]
